@@ -472,3 +472,10 @@ def find_function(fullname):
         if r is not None:
             return r
     raise KeyError("function not found in source: " + fullname)
+
+
+def module_ast(name):
+    m = get_module(name)
+    if m is None:
+        raise KeyError(name)
+    return m.tree
